@@ -1,45 +1,101 @@
 //! C42 — tree traversal and rewriting follow their recursion contract.
 //!
 //! Tie (K) for the hand model `DfModel.Sm.TreeWalk` and validation of translator T2's tables
-//! (`DfModel.Gen.TreeNodeTbl`):
-//!   * `tbl`  : every generated table × its whole domain vs the compiled function;
-//!   * `apply`, `visit`, `tdown`, `tup`, `tdownup`, `rewrite`: real `TreeNode` default methods driven
-//!     on real trees built FROM a model tree shape (child order known by construction) with
-//!     callbacks that follow a decision vector indexed by the invocation count.  Families:
-//!       - `expr`: `datafusion_expr::Expr` (Literal / Alias / Like / ScalarFunction /
-//!         AggregateFunction nodes — Box, tuple, Vec and Option containers);
-//!       - `rose`: a harness tree whose children live in a `(Vec, Vec)` tuple container (the real
-//!         `TreeNodeContainer` impls and the real default methods).
-//! Implementation-level oracles (no model): the run must equal a direct reference of the
-//! *documented* contract; no callback after `Stop`/`Err`; `transformed` = OR of reported flags;
-//! result tree = input with exactly the replacements made.
+//! (`DfModel.Gen.TreeNodeTbl`).  The SAME model is corresponded against every tree family the
+//! property names — each family implements the recursion contract separately:
+//!   * `rose`  : harness tree over a `(Vec, Vec)` tuple container (real default methods + container impls);
+//!   * `expr`  : `datafusion_expr::Expr`, every variant with children that can be built here (Alias, Not, Is*,
+//!               Negative, Cast, TryCast, Unnest, InSubquery, BinaryExpr, Like, SimilarTo, Between, Case ±ELSE,
+//!               InList, ScalarFunction n-ary, AggregateFunction ±FILTER ±ORDER BY, WindowFunction with
+//!               PARTITION BY / ORDER BY / FILTER, GroupingSet Rollup/Cube/GroupingSets) + leaves
+//!               (Literal, Column, Placeholder, Exists, ScalarSubquery);
+//!   * `plan`  : `LogicalPlan` (TableScan, EmptyRelation, Limit, Sort, Repartition, Projection, SubqueryAlias,
+//!               Distinct, Filter, Aggregate, Window, Join, Union n-ary, Subquery) incl. plans with subquery
+//!               expressions (Exists / ScalarSubquery / InSubquery) for the `*_with_subqueries` traversals
+//!               (`LogicalPlan::apply_children` = `Vec<&C>::apply_ref_elements`);
+//!   * `pexpr` : `Arc<dyn PhysicalExpr>` (Column, Literal, Cast, TryCast, Not, IsNull, IsNotNull, Negative,
+//!               BinaryExpr, Like, Case, InList, ScalarFunctionExpr) — blanket `impl TreeNode for Arc<T: DynTreeNode>`;
+//!   * `exec`  : `Arc<dyn ExecutionPlan>` (EmptyExec, PlaceholderRowExec, Global/LocalLimitExec, CoalesceBatchesExec,
+//!               CoalescePartitionsExec, CrossJoinExec, UnionExec n-ary) — same blanket impl.
+//! Every real tree is built FROM a model tree shape (child order known by construction).  Operations:
+//! apply, visit, transform_down, transform_up, transform_down_up, rewrite, exists (+ the six
+//! `*_with_subqueries` forms for `plan`), with callbacks following a decision vector indexed by the invocation
+//! count; Stop/Jump come both with transformed=true and transformed=false.  Compared with the model by
+//! equality: visit log, result tree, flag, final tnr.
+//! Model-free oracles: documented-contract reference; no callback after Stop/Err; flag = OR of reported flags;
+//! result tree = input with exactly the replacements made; `apply_children` and `map_children` enumerate
+//! the same children in the same order (= the children the tree was built from) for every node built.
+//!
+//! Labels: a node kind that has a free payload carries its label there (function name, alias, cast type
+//! `FixedSizeBinary(label)`, LIMIT skip, …) and can be relabelled by a rewriting callback; kinds without a
+//! payload (NOT, AND, CASE, UnionExec, …) have label 0 and the decision vector is adjusted (before the run,
+//! from the model-independent reference) so that no invocation on such a node asks for a relabel.
 use std::cell::RefCell;
 use std::collections::HashMap;
 use std::sync::Arc;
 
-use arrow::datatypes::DataType;
+use arrow::datatypes::{DataType, Field, Schema};
 use datafusion_common::tree_node::{
     Transformed, TreeNode, TreeNodeContainer, TreeNodeRecursion, TreeNodeRefContainer, TreeNodeRewriter, TreeNodeVisitor,
 };
-use datafusion_common::{DataFusionError, Result, ScalarValue};
-use datafusion_expr::expr::{AggregateFunction, Alias, Like, ScalarFunction};
-use datafusion_expr::function::AccumulatorArgs;
-use datafusion_expr::{
-    Accumulator, AggregateUDF, AggregateUDFImpl, ColumnarValue, Expr, ScalarFunctionArgs, ScalarUDF, ScalarUDFImpl, Signature,
-    Volatility,
+use datafusion_common::{DFSchema, DataFusionError, JoinType, NullEquality, Result, ScalarValue};
+use datafusion_expr::expr::{
+    AggregateFunction, Alias, Between, BinaryExpr, Case, Cast, Exists, GroupingSet, InList, InSubquery, Like, Placeholder, ScalarFunction,
+    Sort as SortExpr, TryCast, Unnest, WindowFunction, WindowFunctionDefinition,
 };
+use datafusion_expr::function::AccumulatorArgs;
+use datafusion_expr::logical_plan::{
+    Aggregate, Distinct, EmptyRelation, Filter, Join, JoinConstraint, Limit, Partitioning, Projection, Repartition, Sort, Subquery, SubqueryAlias,
+    Union, Window,
+};
+use datafusion_expr::{
+    Accumulator, AggregateUDF, AggregateUDFImpl, ColumnarValue, Expr, LogicalPlan, Operator, ScalarFunctionArgs, ScalarUDF, ScalarUDFImpl,
+    Signature, Volatility,
+};
+use datafusion_physical_expr::expressions as px;
+use datafusion_physical_expr::{PhysicalExpr, ScalarFunctionExpr};
+use datafusion_physical_plan::ExecutionPlan;
 use hutil::{Args, Rng, Run};
 
 type Tnr = TreeNodeRecursion;
 
 // ------------------------------------------------------------------ model-side tree shape
+/// raw shape + what the family decided for it
 #[derive(Clone, Debug, PartialEq)]
 struct M {
+    /// 0 = this node kind cannot carry a label
     label: u64,
     kids: Vec<M>,
+    /// the node's last child container is empty
+    reset: bool,
+    /// seed choosing the concrete node kind among those with this many children
+    kind: u64,
+    /// `plan` only: `LogicalPlan::Subquery` wrapper nodes (one child each) of the sub-queries in this node's expressions
+    subq: Vec<M>,
+}
+/// the tree as the model sees it (for the `*_with_subqueries` traversals the sub-queries are children, before the inputs)
+#[derive(Clone, Debug, PartialEq)]
+struct V {
+    label: u64,
+    kids: Vec<V>,
     reset: bool,
 }
 impl M {
+    fn view(&self, ws: bool) -> V {
+        let mut kids: Vec<V> = vec![];
+        if ws {
+            kids.extend(self.subq.iter().map(|k| k.view(ws)));
+        }
+        kids.extend(self.kids.iter().map(|k| k.view(ws)));
+        // sub-queries but no inputs: `apply_children` / `map_children` of the input-less node answer Continue
+        let reset = if ws && !self.subq.is_empty() && self.kids.is_empty() { true } else { self.reset && !self.kids.is_empty() };
+        V { label: self.label, kids, reset }
+    }
+    fn size(&self) -> usize {
+        1 + self.kids.iter().chain(self.subq.iter()).map(|k| k.size()).sum::<usize>()
+    }
+}
+impl V {
     fn sexp(&self) -> String {
         let mut s = format!("({} {}", self.label, if self.reset { "t" } else { "f" });
         for k in &self.kids {
@@ -54,6 +110,15 @@ impl M {
     }
     fn has_reset(&self) -> bool {
         (self.reset && !self.kids.is_empty()) || self.kids.iter().any(|k| k.has_reset())
+    }
+    fn plain_shape(&self) -> String {
+        let mut s = format!("({}", self.label);
+        for k in &self.kids {
+            s.push(' ');
+            s.push_str(&k.plain_shape());
+        }
+        s.push(')');
+        s
     }
 }
 
@@ -118,21 +183,76 @@ fn err() -> DataFusionError {
 }
 
 // ------------------------------------------------------------------ families
-trait Fam: TreeNode + Clone {
+trait Fam: TreeNode + Clone + 'static {
     const NAME: &'static str;
-    fn build(m: &M) -> Self;
+    const SUBQ: bool = false;
+    /// `Arc<T: DynTreeNode>::map_children` keeps `self` (drops the children returned by the callback) unless
+    /// some child REPORTED `transformed`; a callback that replaces a node without reporting it breaks its own
+    /// contract, so for these families a relabel always comes with transformed = true
+    const TRUTHFUL_ONLY: bool = false;
+    /// what the family makes of a raw node with `n` children: (can carry a label, last child container empty)
+    fn props(n: usize, kind: u64, reset_hint: bool, has_subq: bool) -> (bool, bool);
+    /// None = the real constructor refused this combination (counted, skipped)
+    fn build(m: &M) -> Option<Self>;
     fn label(&self) -> u64;
     fn relabel(self, new: u64) -> Self;
-    fn kids(&self) -> Vec<&Self>;
-    fn kind(&self) -> &'static str;
-    fn shape(&self) -> String {
+    /// the children this node was built from, in construction order
+    fn kids(&self) -> Vec<Self>;
+    /// `plan`: the `Subquery` wrapper nodes of the sub-queries in this node's expressions, in expression order
+    fn subq(&self) -> Vec<Self> {
+        vec![]
+    }
+    fn kind(&self) -> String;
+    fn shape(&self, ws: bool) -> String {
         let mut s = format!("({}", self.label());
+        if ws {
+            for k in self.subq() {
+                s.push(' ');
+                s.push_str(&k.shape(ws));
+            }
+        }
         for k in self.kids() {
             s.push(' ');
-            s.push_str(&k.shape());
+            s.push_str(&k.shape(ws));
         }
         s.push(')');
         s
+    }
+    /// `*_with_subqueries` forms (plan only)
+    fn ws_inspect(&self, _op: &str, _cb: &RefCell<Cb>) -> Result<Tnr> {
+        unreachable!()
+    }
+    fn ws_rewrite(self, _op: &str, _cb: &RefCell<Cb>) -> Result<Transformed<Self>> {
+        unreachable!()
+    }
+}
+
+/// assign labels (pre-order over node, its sub-queries, its inputs) and the reset flags the family implies
+fn annotate<T: Fam>(m: &mut M, next: &mut u64) {
+    if !(T::SUBQ && m.kids.len() <= 2) {
+        m.subq.clear();
+    }
+    let (labelled, reset) = T::props(m.kids.len(), m.kind, m.reset, !m.subq.is_empty());
+    m.label = if labelled {
+        *next += 1;
+        *next - 1
+    } else {
+        0
+    };
+    m.reset = reset && !m.kids.is_empty();
+    for s in &mut m.subq {
+        // the `LogicalPlan::Subquery` wrapper: labelled, exactly one child
+        s.label = *next;
+        *next += 1;
+        s.reset = false;
+        s.subq.clear();
+        s.kids.truncate(1);
+        for k in &mut s.kids {
+            annotate::<T>(k, next);
+        }
+    }
+    for k in &mut m.kids {
+        annotate::<T>(k, next);
     }
 }
 
@@ -162,13 +282,16 @@ impl TreeNode for Rose {
 }
 impl Fam for Rose {
     const NAME: &'static str = "rose";
-    fn build(m: &M) -> Self {
-        let kids: Vec<Rose> = m.kids.iter().map(Rose::build).collect();
+    fn props(n: usize, _kind: u64, reset_hint: bool, _s: bool) -> (bool, bool) {
+        (true, reset_hint && n > 0)
+    }
+    fn build(m: &M) -> Option<Self> {
+        let kids: Vec<Rose> = m.kids.iter().map(|k| Rose::build(k).unwrap()).collect();
         let n = kids.len();
         let split = if n == 0 || m.reset { n } else { (m.label as usize) % n };
         let b = kids[split..].to_vec();
         let a = kids[..split].to_vec();
-        Rose { label: m.label, a, b }
+        Some(Rose { label: m.label, a, b })
     }
     fn label(&self) -> u64 {
         self.label
@@ -177,11 +300,11 @@ impl Fam for Rose {
         self.label = new;
         self
     }
-    fn kids(&self) -> Vec<&Self> {
-        self.a.iter().chain(self.b.iter()).collect()
+    fn kids(&self) -> Vec<Self> {
+        self.a.iter().chain(self.b.iter()).cloned().collect()
     }
-    fn kind(&self) -> &'static str {
-        if self.b.is_empty() && !self.a.is_empty() { "rose(Vec,empty Vec)" } else { "rose(Vec,Vec)" }
+    fn kind(&self) -> String {
+        if self.b.is_empty() && !self.a.is_empty() { "rose(Vec,empty Vec)".into() } else { "rose(Vec,Vec)".into() }
     }
 }
 
@@ -230,50 +353,241 @@ fn udf(label: u64) -> Arc<ScalarUDF> {
 fn udaf(label: u64) -> Arc<AggregateUDF> {
     Arc::new(AggregateUDF::new_from_impl(StubUdaf { name: format!("a{label}"), sig: Signature::variadic_any(Volatility::Immutable) }))
 }
-fn mk_expr(label: u64, reset: bool, mut kids: Vec<Expr>) -> Expr {
-    let n = kids.len();
-    let odd = label % 2 == 1;
-    if n == 0 {
-        return Expr::Literal(ScalarValue::UInt64(Some(label)), None);
+fn lab_lit(label: u64) -> Expr {
+    Expr::Literal(ScalarValue::UInt64(Some(label)), None)
+}
+fn lit_label(e: &Expr) -> Option<u64> {
+    match e {
+        Expr::Literal(ScalarValue::UInt64(Some(v)), _) => Some(*v),
+        _ => None,
     }
-    if reset {
-        // (args, filter, order_by) with an EMPTY order_by container at the end
-        if odd && n >= 2 {
-            let filt = kids.pop().unwrap();
-            return Expr::AggregateFunction(AggregateFunction::new_udf(udaf(label), kids, false, Some(Box::new(filt)), vec![], None));
+}
+fn dummy_subquery() -> Subquery {
+    let schema = Arc::new(DFSchema::from_unqualified_fields(vec![Field::new("q", DataType::Int64, true)].into(), HashMap::new()).unwrap());
+    Subquery { subquery: Arc::new(LogicalPlan::EmptyRelation(EmptyRelation { produce_one_row: false, schema })), outer_ref_columns: vec![], spans: Default::default() }
+}
+
+/// the Expr variant chosen for a node with `n` children
+#[derive(Clone, Copy, Debug, PartialEq)]
+enum EV {
+    Lit,
+    Col,
+    Placeholder,
+    Exists,
+    ScalarSubquery,
+    Alias,
+    Not,
+    IsNotNull,
+    IsNull,
+    IsTrue,
+    IsFalse,
+    IsUnknown,
+    IsNotTrue,
+    IsNotFalse,
+    IsNotUnknown,
+    Negative,
+    Cast,
+    TryCast,
+    Unnest,
+    InSubquery,
+    Binary,
+    Like,
+    SimilarTo,
+    Between,
+    /// (has operand, has else)
+    Case(bool, bool),
+    InList,
+    Scalar,
+    /// (has filter, number of ORDER BY expressions)
+    Agg(bool, usize),
+    /// (args, partition_by, order_by, has filter)
+    Win(usize, usize, usize, bool),
+    Rollup,
+    Cube,
+    /// size of the first of two grouping sets
+    GroupingSets(usize),
+}
+fn ev(n: usize, kind: u64) -> EV {
+    use EV::*;
+    let k = kind as usize;
+    let agg = |n: usize| {
+        let f = n >= 1 && (k / 7) % 2 == 1;
+        let rest = n - f as usize;
+        let o = (k / 11) % (rest + 1);
+        Agg(f, o)
+    };
+    let win = |n: usize| {
+        let f = n >= 1 && (k / 7) % 2 == 1;
+        let rest = n - f as usize;
+        let a = (k / 11) % (rest + 1);
+        let p = (k / 13) % (rest - a + 1);
+        Win(a, p, rest - a - p, f)
+    };
+    let case = |n: usize| {
+        // n = e + 2w + el with w >= 1
+        let mut forms = vec![];
+        for (e, el) in [(false, false), (true, false), (false, true), (true, true)] {
+            let rest = n as i64 - e as i64 - el as i64;
+            if rest >= 2 && rest % 2 == 0 {
+                forms.push(Case(e, el));
+            }
         }
-        return Expr::AggregateFunction(AggregateFunction::new_udf(udaf(label), kids, false, None, vec![], None));
+        forms[(k / 7) % forms.len()]
+    };
+    let gs = |n: usize| GroupingSets((k / 7) % (n + 1));
+    let opts: Vec<EV> = match n {
+        0 => vec![Lit, Col, Placeholder, Exists, ScalarSubquery, Scalar, Lit, Col],
+        1 => vec![
+            Alias, Not, IsNotNull, IsNull, IsTrue, IsFalse, IsUnknown, IsNotTrue, IsNotFalse, IsNotUnknown, Negative, Cast, TryCast, Unnest, InSubquery,
+            Scalar, agg(1), win(1), InList, Rollup, Cube, gs(1),
+        ],
+        2 => vec![Binary, Like, SimilarTo, case(2), InList, Scalar, agg(2), win(2), Rollup, Cube, gs(2)],
+        3 => vec![Between, case(3), InList, Scalar, agg(3), win(3), gs(3), Rollup],
+        n => vec![case(n), InList, Scalar, agg(n), win(n), gs(n), Cube],
+    };
+    opts[k % opts.len()]
+}
+fn ev_props(v: EV, n: usize) -> (bool, bool) {
+    use EV::*;
+    let labelled = matches!(v, Lit | Col | Placeholder | Alias | Cast | TryCast | Like | SimilarTo | Scalar | Agg(..) | Win(..));
+    let reset = match v {
+        Case(_, el) => !el,
+        InList => n == 1,
+        Agg(_, o) => o == 0,
+        Win(_, _, _, f) => !f,
+        GroupingSets(a) => n - a == 0,
+        _ => false,
+    };
+    (labelled, reset && n > 0)
+}
+fn bx(e: Expr) -> Box<Expr> {
+    Box::new(e)
+}
+fn sort_of(e: Expr) -> SortExpr {
+    SortExpr { expr: e, asc: true, nulls_first: false }
+}
+fn mk_expr(v: EV, label: u64, mut kids: Vec<Expr>) -> Expr {
+    use EV::*;
+    let n = kids.len();
+    match v {
+        Lit => lab_lit(label),
+        Col => Expr::Column(datafusion_common::Column::from_name(format!("c{label}"))),
+        Placeholder => Expr::Placeholder(datafusion_expr::expr::Placeholder { id: format!("${label}"), field: None }),
+        Exists => Expr::Exists(datafusion_expr::expr::Exists { subquery: dummy_subquery(), negated: false }),
+        ScalarSubquery => Expr::ScalarSubquery(dummy_subquery()),
+        Alias => Expr::Alias(datafusion_expr::expr::Alias::new(kids.pop().unwrap(), None::<&str>, format!("{label}"))),
+        Not => Expr::Not(bx(kids.pop().unwrap())),
+        IsNotNull => Expr::IsNotNull(bx(kids.pop().unwrap())),
+        IsNull => Expr::IsNull(bx(kids.pop().unwrap())),
+        IsTrue => Expr::IsTrue(bx(kids.pop().unwrap())),
+        IsFalse => Expr::IsFalse(bx(kids.pop().unwrap())),
+        IsUnknown => Expr::IsUnknown(bx(kids.pop().unwrap())),
+        IsNotTrue => Expr::IsNotTrue(bx(kids.pop().unwrap())),
+        IsNotFalse => Expr::IsNotFalse(bx(kids.pop().unwrap())),
+        IsNotUnknown => Expr::IsNotUnknown(bx(kids.pop().unwrap())),
+        Negative => Expr::Negative(bx(kids.pop().unwrap())),
+        Cast => Expr::Cast(datafusion_expr::expr::Cast::new(bx(kids.pop().unwrap()), DataType::FixedSizeBinary(label as i32))),
+        TryCast => Expr::TryCast(datafusion_expr::expr::TryCast::new(bx(kids.pop().unwrap()), DataType::FixedSizeBinary(label as i32))),
+        Unnest => Expr::Unnest(datafusion_expr::expr::Unnest { expr: bx(kids.pop().unwrap()), outer: false }),
+        InSubquery => Expr::InSubquery(datafusion_expr::expr::InSubquery { expr: bx(kids.pop().unwrap()), subquery: dummy_subquery(), negated: false }),
+        Binary => {
+            let r = kids.pop().unwrap();
+            let l = kids.pop().unwrap();
+            Expr::BinaryExpr(BinaryExpr::new(bx(l), Operator::Plus, bx(r)))
+        }
+        Like | SimilarTo => {
+            let p = kids.pop().unwrap();
+            let e = kids.pop().unwrap();
+            let l = datafusion_expr::expr::Like::new(false, bx(e), bx(p), char::from_u32(label as u32), false);
+            if v == Like { Expr::Like(l) } else { Expr::SimilarTo(l) }
+        }
+        Between => {
+            let h = kids.pop().unwrap();
+            let l = kids.pop().unwrap();
+            let e = kids.pop().unwrap();
+            Expr::Between(datafusion_expr::expr::Between::new(bx(e), false, bx(l), bx(h)))
+        }
+        Case(has_e, has_el) => {
+            let el = if has_el { Some(bx(kids.pop().unwrap())) } else { None };
+            let mut it = kids.into_iter();
+            let e = if has_e { Some(bx(it.next().unwrap())) } else { None };
+            let mut wt = vec![];
+            while let Some(w) = it.next() {
+                let t = it.next().unwrap();
+                wt.push((bx(w), bx(t)));
+            }
+            Expr::Case(datafusion_expr::expr::Case::new(e, wt, el))
+        }
+        InList => {
+            let mut it = kids.into_iter();
+            let e = it.next().unwrap();
+            Expr::InList(datafusion_expr::expr::InList::new(bx(e), it.collect(), false))
+        }
+        Scalar => Expr::ScalarFunction(ScalarFunction::new_udf(udf(label), kids)),
+        Agg(f, o) => {
+            let ord: Vec<SortExpr> = kids.split_off(n - o).into_iter().map(sort_of).collect();
+            let filt = if f { Some(bx(kids.pop().unwrap())) } else { None };
+            Expr::AggregateFunction(AggregateFunction::new_udf(udaf(label), kids, false, filt, ord, None))
+        }
+        Win(a, p, o, f) => {
+            let filt = if f { Some(bx(kids.pop().unwrap())) } else { None };
+            let ord: Vec<SortExpr> = kids.split_off(a + p).into_iter().map(sort_of).collect();
+            let part = kids.split_off(a);
+            debug_assert_eq!(ord.len(), o);
+            let mut w = WindowFunction::new(WindowFunctionDefinition::AggregateUDF(udaf(label)), kids);
+            w.params.partition_by = part;
+            w.params.order_by = ord;
+            w.params.filter = filt;
+            Expr::WindowFunction(Box::new(w))
+        }
+        Rollup => Expr::GroupingSet(GroupingSet::Rollup(kids)),
+        Cube => Expr::GroupingSet(GroupingSet::Cube(kids)),
+        GroupingSets(a) => {
+            let b = kids.split_off(a);
+            Expr::GroupingSet(GroupingSet::GroupingSets(vec![kids, b]))
+        }
     }
-    if n == 1 && odd {
-        return Expr::Alias(Alias::new(kids.pop().unwrap(), None::<&str>, format!("{label}")));
+}
+fn fsb_label(t: &DataType) -> u64 {
+    match t {
+        DataType::FixedSizeBinary(n) => *n as u64,
+        _ => 0,
     }
-    if n == 2 && odd {
-        let p = kids.pop().unwrap();
-        let e = kids.pop().unwrap();
-        return Expr::Like(Like::new(false, Box::new(e), Box::new(p), char::from_u32(label as u32), false));
-    }
-    Expr::ScalarFunction(ScalarFunction::new_udf(udf(label), kids))
 }
 impl Fam for Expr {
     const NAME: &'static str = "expr";
-    fn build(m: &M) -> Self {
-        mk_expr(m.label, m.reset, m.kids.iter().map(Expr::build).collect())
+    fn props(n: usize, kind: u64, _hint: bool, _s: bool) -> (bool, bool) {
+        ev_props(ev(n, kind), n)
+    }
+    fn build(m: &M) -> Option<Self> {
+        let kids: Option<Vec<Expr>> = m.kids.iter().map(Expr::build).collect();
+        Some(mk_expr(ev(m.kids.len(), m.kind), m.label, kids?))
     }
     fn label(&self) -> u64 {
         match self {
             Expr::Literal(ScalarValue::UInt64(Some(v)), _) => *v,
-            Expr::Alias(a) => a.name.parse().unwrap(),
-            Expr::Like(l) => l.escape_char.unwrap() as u64,
-            Expr::ScalarFunction(f) => f.func.name()[1..].parse().unwrap(),
-            Expr::AggregateFunction(f) => f.func.name()[1..].parse().unwrap(),
-            e => panic!("unexpected expr {e:?}"),
+            Expr::Column(c) => c.name[1..].parse().unwrap_or(0),
+            Expr::Placeholder(p) => p.id[1..].parse().unwrap_or(0),
+            Expr::Alias(a) => a.name.parse().unwrap_or(0),
+            Expr::Cast(c) => fsb_label(c.field.data_type()),
+            Expr::TryCast(c) => fsb_label(c.field.data_type()),
+            Expr::Like(l) | Expr::SimilarTo(l) => l.escape_char.map_or(0, |c| c as u64),
+            Expr::ScalarFunction(f) => f.func.name()[1..].parse().unwrap_or(0),
+            Expr::AggregateFunction(f) => f.func.name()[1..].parse().unwrap_or(0),
+            Expr::WindowFunction(w) => w.fun.name()[1..].parse().unwrap_or(0),
+            _ => 0,
         }
     }
     fn relabel(self, new: u64) -> Self {
         match self {
-            Expr::Literal(_, m) => Expr::Literal(ScalarValue::UInt64(Some(new)), m),
+            Expr::Literal(ScalarValue::UInt64(Some(_)), m) => Expr::Literal(ScalarValue::UInt64(Some(new)), m),
+            Expr::Column(_) => Expr::Column(datafusion_common::Column::from_name(format!("c{new}"))),
+            Expr::Placeholder(p) => Expr::Placeholder(Placeholder { id: format!("${new}"), field: p.field }),
             Expr::Alias(a) => Expr::Alias(Alias::new(*a.expr, a.relation, format!("{new}"))),
+            Expr::Cast(c) => Expr::Cast(Cast::new(c.expr, DataType::FixedSizeBinary(new as i32))),
+            Expr::TryCast(c) => Expr::TryCast(TryCast::new(c.expr, DataType::FixedSizeBinary(new as i32))),
             Expr::Like(l) => Expr::Like(Like::new(l.negated, l.expr, l.pattern, char::from_u32(new as u32), l.case_insensitive)),
+            Expr::SimilarTo(l) => Expr::SimilarTo(Like::new(l.negated, l.expr, l.pattern, char::from_u32(new as u32), l.case_insensitive)),
             Expr::ScalarFunction(f) => Expr::ScalarFunction(ScalarFunction::new_udf(udf(new), f.args)),
             Expr::AggregateFunction(f) => Expr::AggregateFunction(AggregateFunction::new_udf(
                 udaf(new),
@@ -283,28 +597,532 @@ impl Fam for Expr {
                 f.params.order_by,
                 f.params.null_treatment,
             )),
-            e => panic!("unexpected expr {e:?}"),
+            Expr::WindowFunction(w) => {
+                let mut w = *w;
+                w.fun = WindowFunctionDefinition::AggregateUDF(udaf(new));
+                Expr::WindowFunction(Box::new(w))
+            }
+            e => e, // unlabelled kinds are never asked to relabel (decision vectors are adjusted); keep as is
         }
     }
-    fn kids(&self) -> Vec<&Self> {
+    fn kids(&self) -> Vec<Self> {
+        let b = |e: &Box<Expr>| (**e).clone();
         match self {
-            Expr::Literal(..) => vec![],
-            Expr::Alias(a) => vec![a.expr.as_ref()],
-            Expr::Like(l) => vec![l.expr.as_ref(), l.pattern.as_ref()],
-            Expr::ScalarFunction(f) => f.args.iter().collect(),
-            Expr::AggregateFunction(f) => f.params.args.iter().chain(f.params.filter.iter().map(|b| b.as_ref())).collect(),
-            e => panic!("unexpected expr {e:?}"),
+            Expr::Alias(a) => vec![b(&a.expr)],
+            Expr::Not(e) | Expr::IsNotNull(e) | Expr::IsNull(e) | Expr::IsTrue(e) | Expr::IsFalse(e) | Expr::IsUnknown(e) | Expr::IsNotTrue(e)
+            | Expr::IsNotFalse(e) | Expr::IsNotUnknown(e) | Expr::Negative(e) => vec![b(e)],
+            Expr::Cast(c) => vec![b(&c.expr)],
+            Expr::TryCast(c) => vec![b(&c.expr)],
+            Expr::Unnest(u) => vec![b(&u.expr)],
+            Expr::InSubquery(i) => vec![b(&i.expr)],
+            Expr::BinaryExpr(x) => vec![b(&x.left), b(&x.right)],
+            Expr::Like(l) | Expr::SimilarTo(l) => vec![b(&l.expr), b(&l.pattern)],
+            Expr::Between(x) => vec![b(&x.expr), b(&x.low), b(&x.high)],
+            Expr::Case(c) => {
+                let mut v: Vec<Expr> = c.expr.iter().map(b).collect();
+                for (w, t) in &c.when_then_expr {
+                    v.push(b(w));
+                    v.push(b(t));
+                }
+                v.extend(c.else_expr.iter().map(b));
+                v
+            }
+            Expr::InList(i) => std::iter::once(b(&i.expr)).chain(i.list.iter().cloned()).collect(),
+            Expr::ScalarFunction(f) => f.args.clone(),
+            Expr::AggregateFunction(f) => {
+                f.params.args.iter().cloned().chain(f.params.filter.iter().map(b)).chain(f.params.order_by.iter().map(|s| s.expr.clone())).collect()
+            }
+            Expr::WindowFunction(w) => w
+                .params
+                .args
+                .iter()
+                .cloned()
+                .chain(w.params.partition_by.iter().cloned())
+                .chain(w.params.order_by.iter().map(|s| s.expr.clone()))
+                .chain(w.params.filter.iter().map(b))
+                .collect(),
+            Expr::GroupingSet(GroupingSet::Rollup(v)) | Expr::GroupingSet(GroupingSet::Cube(v)) => v.clone(),
+            Expr::GroupingSet(GroupingSet::GroupingSets(vs)) => vs.iter().flatten().cloned().collect(),
+            _ => vec![],
         }
     }
-    fn kind(&self) -> &'static str {
-        match self {
-            Expr::Literal(..) => "Literal",
-            Expr::Alias(_) => "Alias",
-            Expr::Like(_) => "Like",
-            Expr::ScalarFunction(_) => "ScalarFunction",
-            Expr::AggregateFunction(_) => "AggregateFunction(no ORDER BY)",
-            _ => "?",
+    fn kind(&self) -> String {
+        self.variant_name().to_string()
+    }
+}
+
+// ---- plan: LogicalPlan
+#[derive(Clone, Copy, Debug, PartialEq)]
+enum PV {
+    TableScan,
+    EmptyRelation,
+    Limit,
+    Sort,
+    Repartition,
+    Projection,
+    SubqueryAlias,
+    DistinctAll,
+    Filter,
+    Aggregate,
+    Window,
+    Join,
+    Union,
+}
+fn pv(n: usize, kind: u64, has_subq: bool) -> PV {
+    use PV::*;
+    let k = kind as usize;
+    match n {
+        0 => if has_subq { TableScan } else { [TableScan, EmptyRelation][k % 2] },
+        1 => if has_subq { Limit } else { [Limit, Sort, Repartition, Projection, SubqueryAlias, DistinctAll, Filter, Aggregate, Window][k % 9] },
+        2 => if has_subq { Join } else { [Join, Union][k % 2] },
+        _ => Union,
+    }
+}
+fn one_field_schema(name: String) -> Arc<DFSchema> {
+    Arc::new(DFSchema::from_unqualified_fields(vec![Field::new(name, DataType::Int64, true)].into(), HashMap::new()).unwrap())
+}
+/// `e1 AND e2 AND …` over sub-query expressions of rotating kinds (Exists / scalar sub-query / IN sub-query)
+fn subq_exprs(subs: Vec<LogicalPlan>) -> Vec<Expr> {
+    subs.into_iter()
+        .enumerate()
+        .map(|(i, p)| {
+            let LogicalPlan::Subquery(sq) = p else { unreachable!() };
+            match i % 3 {
+                0 => Expr::Exists(Exists { subquery: sq, negated: false }),
+                1 => Expr::ScalarSubquery(sq),
+                _ => Expr::InSubquery(InSubquery { expr: Box::new(lab_lit(0)), subquery: sq, negated: false }),
+            }
+        })
+        .collect()
+}
+fn and_chain(first: Option<Expr>, rest: Vec<Expr>) -> Option<Expr> {
+    let mut it = first.into_iter().chain(rest);
+    let mut acc = it.next()?;
+    for e in it {
+        acc = Expr::BinaryExpr(BinaryExpr::new(Box::new(acc), Operator::And, Box::new(e)));
+    }
+    Some(acc)
+}
+fn subqueries_of(e: &Expr, out: &mut Vec<LogicalPlan>) {
+    let _ = e.apply(|x| {
+        match x {
+            Expr::Exists(Exists { subquery, .. }) | Expr::InSubquery(InSubquery { subquery, .. }) | Expr::ScalarSubquery(subquery) => {
+                out.push(LogicalPlan::Subquery(subquery.clone()))
+            }
+            _ => {}
         }
+        Ok(Tnr::Continue)
+    });
+}
+fn leftmost_label(e: &Expr) -> u64 {
+    match e {
+        Expr::BinaryExpr(b) => leftmost_label(&b.left),
+        e => lit_label(e).unwrap_or(0),
+    }
+}
+fn mk_plan(v: PV, label: u64, mut kids: Vec<LogicalPlan>, subs: Vec<LogicalPlan>) -> Result<LogicalPlan> {
+    use PV::*;
+    let arc = |p: LogicalPlan| Arc::new(p);
+    Ok(match v {
+        TableScan => {
+            let schema = Schema::new(vec![Field::new(format!("c{label}"), DataType::Int64, true)]);
+            let p = datafusion_expr::logical_plan::builder::table_scan(Some(format!("t{label}")), &schema, None)?.build()?;
+            match p {
+                LogicalPlan::TableScan(mut ts) => {
+                    ts.filters = subq_exprs(subs);
+                    LogicalPlan::TableScan(ts)
+                }
+                p => p,
+            }
+        }
+        EmptyRelation => LogicalPlan::EmptyRelation(datafusion_expr::logical_plan::EmptyRelation { produce_one_row: false, schema: one_field_schema(format!("e{label}")) }),
+        Limit => LogicalPlan::Limit(datafusion_expr::logical_plan::Limit {
+            skip: Some(Box::new(lab_lit(label))),
+            fetch: and_chain(None, subq_exprs(subs)).map(Box::new),
+            input: arc(kids.pop().unwrap()),
+        }),
+        Sort => LogicalPlan::Sort(datafusion_expr::logical_plan::Sort { expr: vec![], input: arc(kids.pop().unwrap()), fetch: Some(label as usize) }),
+        Repartition => LogicalPlan::Repartition(datafusion_expr::logical_plan::Repartition {
+            input: arc(kids.pop().unwrap()),
+            partitioning_scheme: Partitioning::RoundRobinBatch(label as usize),
+        }),
+        Projection => LogicalPlan::Projection(datafusion_expr::logical_plan::Projection::try_new(vec![lab_lit(label).alias(format!("p{label}"))], arc(kids.pop().unwrap()))?),
+        SubqueryAlias => LogicalPlan::SubqueryAlias(datafusion_expr::logical_plan::SubqueryAlias::try_new(arc(kids.pop().unwrap()), format!("s{label}"))?),
+        DistinctAll => LogicalPlan::Distinct(Distinct::All(arc(kids.pop().unwrap()))),
+        Filter => LogicalPlan::Filter(datafusion_expr::logical_plan::Filter::try_new(lab_lit(label).eq(lab_lit(label)), arc(kids.pop().unwrap()))?),
+        Aggregate => LogicalPlan::Aggregate(datafusion_expr::logical_plan::Aggregate::try_new(arc(kids.pop().unwrap()), vec![lab_lit(label).alias(format!("g{label}"))], vec![])?),
+        Window => {
+            let w = Expr::WindowFunction(Box::new(WindowFunction::new(WindowFunctionDefinition::AggregateUDF(udaf(label)), vec![lab_lit(0)])));
+            LogicalPlan::Window(datafusion_expr::logical_plan::Window::try_new(vec![w], arc(kids.pop().unwrap()))?)
+        }
+        Join => {
+            let r = kids.pop().unwrap();
+            let l = kids.pop().unwrap();
+            LogicalPlan::Join(datafusion_expr::logical_plan::Join::try_new(
+                arc(l),
+                arc(r),
+                vec![],
+                and_chain(Some(lab_lit(label)), subq_exprs(subs)),
+                JoinType::Inner,
+                JoinConstraint::On,
+                NullEquality::NullEqualsNothing,
+                false,
+            )?)
+        }
+        Union => LogicalPlan::Union(datafusion_expr::logical_plan::Union { inputs: kids.into_iter().map(Arc::new).collect(), schema: one_field_schema(format!("u{label}")) }),
+    })
+}
+fn build_plan(m: &M) -> Result<LogicalPlan> {
+    let kids: Vec<LogicalPlan> = m.kids.iter().map(build_plan).collect::<Result<_>>()?;
+    let mut subs = vec![];
+    for s in &m.subq {
+        let inner = build_plan(&s.kids[0])?;
+        subs.push(LogicalPlan::Subquery(Subquery { subquery: Arc::new(inner), outer_ref_columns: vec![lab_lit(s.label)], spans: Default::default() }));
+    }
+    mk_plan(pv(m.kids.len(), m.kind, !m.subq.is_empty()), m.label, kids, subs)
+}
+fn name_label(s: &str) -> u64 {
+    s.get(1..).and_then(|x| x.parse().ok()).unwrap_or(0)
+}
+impl Fam for LogicalPlan {
+    const NAME: &'static str = "plan";
+    const SUBQ: bool = true;
+    fn props(n: usize, kind: u64, _hint: bool, has_subq: bool) -> (bool, bool) {
+        (pv(n, kind, has_subq) != PV::DistinctAll, false)
+    }
+    fn build(m: &M) -> Option<Self> {
+        match build_plan(m) {
+            Ok(p) => Some(p),
+            Err(e) => {
+                if std::env::var("C42_DEBUG").is_ok() {
+                    eprintln!("plan build error: {}", e.to_string().chars().take(200).collect::<String>());
+                }
+                None
+            }
+        }
+    }
+    fn label(&self) -> u64 {
+        match self {
+            LogicalPlan::TableScan(t) => name_label(t.table_name.table()),
+            LogicalPlan::EmptyRelation(e) => name_label(e.schema.field(0).name()),
+            LogicalPlan::Limit(l) => l.skip.as_ref().and_then(|e| lit_label(e)).unwrap_or(0),
+            LogicalPlan::Sort(s) => s.fetch.unwrap_or(0) as u64,
+            LogicalPlan::Repartition(r) => match r.partitioning_scheme {
+                Partitioning::RoundRobinBatch(n) => n as u64,
+                _ => 0,
+            },
+            LogicalPlan::Projection(p) => match &p.expr[0] {
+                Expr::Alias(a) => name_label(&a.name),
+                _ => 0,
+            },
+            LogicalPlan::SubqueryAlias(a) => name_label(a.alias.table()),
+            LogicalPlan::Filter(f) => leftmost_label(&f.predicate),
+            LogicalPlan::Aggregate(a) => match &a.group_expr[0] {
+                Expr::Alias(x) => name_label(&x.name),
+                _ => 0,
+            },
+            LogicalPlan::Window(w) => match &w.window_expr[0] {
+                Expr::WindowFunction(f) => name_label(f.fun.name()),
+                _ => 0,
+            },
+            LogicalPlan::Join(j) => j.filter.as_ref().map_or(0, leftmost_label),
+            LogicalPlan::Union(u) => name_label(u.schema.field(0).name()),
+            LogicalPlan::Subquery(s) => s.outer_ref_columns.first().and_then(lit_label).unwrap_or(0),
+            _ => 0,
+        }
+    }
+    fn relabel(self, new: u64) -> Self {
+        let subs = self.subq();
+        let kids = self.kids();
+        let v = match &self {
+            LogicalPlan::TableScan(_) => PV::TableScan,
+            LogicalPlan::EmptyRelation(_) => PV::EmptyRelation,
+            LogicalPlan::Limit(_) => PV::Limit,
+            LogicalPlan::Sort(_) => PV::Sort,
+            LogicalPlan::Repartition(_) => PV::Repartition,
+            LogicalPlan::Projection(_) => PV::Projection,
+            LogicalPlan::SubqueryAlias(_) => PV::SubqueryAlias,
+            LogicalPlan::Filter(_) => PV::Filter,
+            LogicalPlan::Aggregate(_) => PV::Aggregate,
+            LogicalPlan::Window(_) => PV::Window,
+            LogicalPlan::Join(_) => PV::Join,
+            LogicalPlan::Union(_) => PV::Union,
+            LogicalPlan::Subquery(s) => {
+                return LogicalPlan::Subquery(Subquery { subquery: Arc::clone(&s.subquery), outer_ref_columns: vec![lab_lit(new)], spans: Default::default() });
+            }
+            _ => return self,
+        };
+        mk_plan(v, new, kids, subs).expect("relabel keeps the node kind")
+    }
+    fn kids(&self) -> Vec<Self> {
+        self.inputs().into_iter().cloned().collect()
+    }
+    fn subq(&self) -> Vec<Self> {
+        let mut out = vec![];
+        let _ = self.apply_expressions(|e| {
+            subqueries_of(e, &mut out);
+            Ok(Tnr::Continue)
+        });
+        out
+    }
+    fn kind(&self) -> String {
+        format!("{}", self.display()).split([':', ' ']).next().unwrap_or("?").to_string()
+    }
+    fn ws_inspect(&self, op: &str, cb: &RefCell<Cb>) -> Result<Tnr> {
+        match op {
+            "apply" => self.apply_with_subqueries(|n| vcall(cb, 'd', n)),
+            "visit" => self.visit_with_subqueries(&mut VisT(cb, std::marker::PhantomData)),
+            _ => unreachable!(),
+        }
+    }
+    fn ws_rewrite(self, op: &str, cb: &RefCell<Cb>) -> Result<Transformed<Self>> {
+        match op {
+            "tdown" => self.transform_down_with_subqueries(|n| tcall(cb, 'd', n)),
+            "tup" => self.transform_up_with_subqueries(|n| tcall(cb, 'u', n)),
+            "tdownup" => self.transform_down_up_with_subqueries(|n| tcall(cb, 'd', n), |n| tcall(cb, 'u', n)),
+            "rewrite" => self.rewrite_with_subqueries(&mut RewT(cb, std::marker::PhantomData)),
+            _ => unreachable!(),
+        }
+    }
+}
+
+// ---- pexpr: Arc<dyn PhysicalExpr>  (blanket `impl TreeNode for Arc<T: DynTreeNode>`)
+type PE = Arc<dyn PhysicalExpr>;
+#[derive(Clone, Copy, Debug, PartialEq)]
+enum XV {
+    Column,
+    Literal,
+    Cast,
+    TryCast,
+    Not,
+    IsNull,
+    IsNotNull,
+    Negative,
+    Binary,
+    Like,
+    /// (has operand, has else)
+    Case(bool, bool),
+    InList,
+    Scalar,
+}
+fn xv(n: usize, kind: u64) -> XV {
+    use XV::*;
+    let k = kind as usize;
+    let case = |n: usize| {
+        let mut forms = vec![];
+        for (e, el) in [(false, false), (true, false), (false, true), (true, true)] {
+            let rest = n as i64 - e as i64 - el as i64;
+            if rest >= 2 && rest % 2 == 0 {
+                forms.push(Case(e, el));
+            }
+        }
+        forms[(k / 7) % forms.len()]
+    };
+    let opts: Vec<XV> = match n {
+        0 => vec![Column, Literal, Scalar],
+        1 => vec![Cast, TryCast, Not, IsNull, IsNotNull, Negative, Scalar],
+        2 => vec![Binary, Like, case(2), Scalar, Binary, Like, case(2), Scalar, InList],
+        n => vec![case(n), Scalar, case(n), Scalar, InList],
+    };
+    opts[k % opts.len()]
+}
+fn pschema() -> Schema {
+    Schema::new(vec![Field::new("x", DataType::UInt64, true)])
+}
+fn mk_pexpr(v: XV, label: u64, mut kids: Vec<PE>) -> Result<PE> {
+    use XV::*;
+    let scalar = |label: u64, kids: Vec<PE>| -> PE {
+        Arc::new(ScalarFunctionExpr::new(&format!("f{label}"), udf(label), kids, Arc::new(Field::new("r", DataType::Int64, true)), Arc::new(Default::default())))
+    };
+    Ok(match v {
+        Column => Arc::new(px::Column::new(&format!("c{label}"), 0)),
+        Literal => Arc::new(px::Literal::new(ScalarValue::UInt64(Some(label)))),
+        Cast => Arc::new(px::CastExpr::new(kids.pop().unwrap(), DataType::FixedSizeBinary(label as i32), None)),
+        TryCast => Arc::new(px::TryCastExpr::new(kids.pop().unwrap(), DataType::FixedSizeBinary(label as i32))),
+        Not => Arc::new(px::NotExpr::new(kids.pop().unwrap())),
+        IsNull => Arc::new(px::IsNullExpr::new(kids.pop().unwrap())),
+        IsNotNull => Arc::new(px::IsNotNullExpr::new(kids.pop().unwrap())),
+        Negative => Arc::new(px::NegativeExpr::new(kids.pop().unwrap())),
+        Binary => {
+            let r = kids.pop().unwrap();
+            let l = kids.pop().unwrap();
+            Arc::new(px::BinaryExpr::new(l, Operator::Plus, r))
+        }
+        Like => {
+            let p = kids.pop().unwrap();
+            let e = kids.pop().unwrap();
+            Arc::new(px::LikeExpr::new(false, false, e, p))
+        }
+        Case(has_e, has_el) => {
+            let el = if has_el { Some(kids.pop().unwrap()) } else { None };
+            let mut it = kids.into_iter();
+            let e = if has_e { Some(it.next().unwrap()) } else { None };
+            let mut wt = vec![];
+            while let Some(w) = it.next() {
+                wt.push((w, it.next().unwrap()));
+            }
+            Arc::new(px::CaseExpr::try_new(e, wt, el)?)
+        }
+        InList => {
+            let mut it = kids.into_iter();
+            let e = it.next().unwrap();
+            Arc::new(px::InListExpr::try_new(e, it.collect(), false, &pschema())?)
+        }
+        Scalar => scalar(label, kids),
+    })
+}
+fn build_pexpr(m: &M) -> Result<PE> {
+    let kids: Vec<PE> = m.kids.iter().map(build_pexpr).collect::<Result<_>>()?;
+    mk_pexpr(xv(m.kids.len(), m.kind), m.label, kids)
+}
+impl Fam for PE {
+    const NAME: &'static str = "pexpr";
+    const TRUTHFUL_ONLY: bool = true;
+    fn props(n: usize, kind: u64, _hint: bool, _s: bool) -> (bool, bool) {
+        (matches!(xv(n, kind), XV::Column | XV::Literal | XV::Cast | XV::TryCast | XV::Scalar), false)
+    }
+    fn build(m: &M) -> Option<Self> {
+        build_pexpr(m).ok()
+    }
+    fn label(&self) -> u64 {
+        if let Some(c) = self.downcast_ref::<px::Column>() {
+            name_label(c.name())
+        } else if let Some(l) = self.downcast_ref::<px::Literal>() {
+            match l.value() {
+                ScalarValue::UInt64(Some(v)) => *v,
+                _ => 0,
+            }
+        } else if let Some(c) = self.downcast_ref::<px::CastExpr>() {
+            fsb_label(c.cast_type())
+        } else if let Some(c) = self.downcast_ref::<px::TryCastExpr>() {
+            fsb_label(c.cast_type())
+        } else if let Some(f) = self.downcast_ref::<ScalarFunctionExpr>() {
+            name_label(f.name())
+        } else {
+            0
+        }
+    }
+    fn relabel(self, new: u64) -> Self {
+        let kids = self.kids();
+        let v = if self.downcast_ref::<px::Column>().is_some() {
+            XV::Column
+        } else if self.downcast_ref::<px::Literal>().is_some() {
+            XV::Literal
+        } else if self.downcast_ref::<px::CastExpr>().is_some() {
+            XV::Cast
+        } else if self.downcast_ref::<px::TryCastExpr>().is_some() {
+            XV::TryCast
+        } else if self.downcast_ref::<ScalarFunctionExpr>().is_some() {
+            XV::Scalar
+        } else {
+            return self;
+        };
+        mk_pexpr(v, new, kids).expect("relabel keeps the node kind")
+    }
+    fn kids(&self) -> Vec<Self> {
+        self.children().into_iter().cloned().collect()
+    }
+    fn kind(&self) -> String {
+        format!("{self:?}").split(['(', ' ', '{']).next().unwrap_or("?").to_string()
+    }
+}
+
+// ---- exec: Arc<dyn ExecutionPlan>
+type EP = Arc<dyn ExecutionPlan>;
+#[derive(Clone, Copy, Debug, PartialEq)]
+enum CV {
+    Empty,
+    PlaceholderRow,
+    GlobalLimit,
+    LocalLimit,
+    CoalesceBatches,
+    CoalescePartitions,
+    CrossJoin,
+    Union,
+}
+fn cv(n: usize, kind: u64) -> CV {
+    use CV::*;
+    let k = kind as usize;
+    match n {
+        0 => [Empty, PlaceholderRow][k % 2],
+        1 => [GlobalLimit, LocalLimit, CoalesceBatches, CoalescePartitions][k % 4],
+        2 => [Union, Union, Union, CrossJoin][k % 4],
+        _ => Union,
+    }
+}
+fn eschema() -> Arc<Schema> {
+    Arc::new(Schema::new(vec![Field::new("x", DataType::Int64, true)]))
+}
+fn mk_exec(v: CV, label: u64, mut kids: Vec<EP>) -> Result<EP> {
+    use datafusion_physical_plan::{coalesce_batches::CoalesceBatchesExec, coalesce_partitions::CoalescePartitionsExec, empty::EmptyExec, joins::CrossJoinExec};
+    use datafusion_physical_plan::{limit::GlobalLimitExec, limit::LocalLimitExec, placeholder_row::PlaceholderRowExec, union::UnionExec};
+    use CV::*;
+    Ok(match v {
+        Empty => Arc::new(EmptyExec::new(eschema()).with_partitions(label as usize)),
+        PlaceholderRow => Arc::new(PlaceholderRowExec::new(eschema()).with_partitions(label as usize)),
+        GlobalLimit => Arc::new(GlobalLimitExec::new(kids.pop().unwrap(), label as usize, None)),
+        LocalLimit => Arc::new(LocalLimitExec::new(kids.pop().unwrap(), label as usize)),
+        CoalesceBatches => Arc::new(CoalesceBatchesExec::new(kids.pop().unwrap(), label as usize)),
+        CoalescePartitions => Arc::new(CoalescePartitionsExec::new(kids.pop().unwrap())),
+        CrossJoin => {
+            let r = kids.pop().unwrap();
+            let l = kids.pop().unwrap();
+            Arc::new(CrossJoinExec::new(l, r))
+        }
+        Union => UnionExec::try_new(kids)?,
+    })
+}
+fn build_exec(m: &M) -> Result<EP> {
+    let kids: Vec<EP> = m.kids.iter().map(build_exec).collect::<Result<_>>()?;
+    mk_exec(cv(m.kids.len(), m.kind), m.label, kids)
+}
+impl Fam for EP {
+    const NAME: &'static str = "exec";
+    const TRUTHFUL_ONLY: bool = true;
+    fn props(n: usize, kind: u64, _hint: bool, _s: bool) -> (bool, bool) {
+        (matches!(cv(n, kind), CV::Empty | CV::PlaceholderRow | CV::GlobalLimit | CV::LocalLimit | CV::CoalesceBatches), false)
+    }
+    fn build(m: &M) -> Option<Self> {
+        build_exec(m).ok()
+    }
+    fn label(&self) -> u64 {
+        use datafusion_physical_plan::{coalesce_batches::CoalesceBatchesExec, empty::EmptyExec, limit::GlobalLimitExec, limit::LocalLimitExec, placeholder_row::PlaceholderRowExec};
+        use datafusion_physical_plan::ExecutionPlanProperties;
+        if self.downcast_ref::<EmptyExec>().is_some() || self.downcast_ref::<PlaceholderRowExec>().is_some() {
+            self.output_partitioning().partition_count() as u64
+        } else if let Some(g) = self.downcast_ref::<GlobalLimitExec>() {
+            g.skip() as u64
+        } else if let Some(l) = self.downcast_ref::<LocalLimitExec>() {
+            l.fetch() as u64
+        } else if let Some(c) = self.downcast_ref::<CoalesceBatchesExec>() {
+            c.target_batch_size() as u64
+        } else {
+            0
+        }
+    }
+    fn relabel(self, new: u64) -> Self {
+        use datafusion_physical_plan::{coalesce_batches::CoalesceBatchesExec, empty::EmptyExec, limit::GlobalLimitExec, limit::LocalLimitExec, placeholder_row::PlaceholderRowExec};
+        let kids = self.kids();
+        let v = if self.downcast_ref::<EmptyExec>().is_some() {
+            CV::Empty
+        } else if self.downcast_ref::<PlaceholderRowExec>().is_some() {
+            CV::PlaceholderRow
+        } else if self.downcast_ref::<GlobalLimitExec>().is_some() {
+            CV::GlobalLimit
+        } else if self.downcast_ref::<LocalLimitExec>().is_some() {
+            CV::LocalLimit
+        } else if self.downcast_ref::<CoalesceBatchesExec>().is_some() {
+            CV::CoalesceBatches
+        } else {
+            return self;
+        };
+        mk_exec(v, new, kids).expect("relabel keeps the node kind")
+    }
+    fn kids(&self) -> Vec<Self> {
+        self.children().into_iter().cloned().collect()
+    }
+    fn kind(&self) -> String {
+        self.name().to_string()
     }
 }
 
@@ -312,8 +1130,6 @@ impl Fam for Expr {
 struct Outcome {
     log: Vec<String>,
     calls: Vec<(char, u64, Dec)>,
-    /// None = Err
-    vres: Option<Tnr>,
     /// (shape, transformed, tnr)
     tres: Option<(String, bool, Tnr)>,
     answer: String,
@@ -353,44 +1169,67 @@ fn tcall<T: Fam>(cb: &RefCell<Cb>, phase: char, n: T) -> Result<Transformed<T>> 
         (d, c.k as u64)
     };
     match d {
-        Dec::T(t, f, r) => Ok(Transformed::new(if r { n.relabel(l + 100 * k) } else { n }, f, t)),
+        Dec::T(t, f, r) => Ok(Transformed::new(if r && l != 0 { n.relabel(l + 100 * k) } else { n }, f, t)),
         _ => Err(err()),
     }
 }
 
-fn run_real<T: Fam>(op: &str, m: &M, decs: &[Dec]) -> Outcome {
-    let rewriting = !matches!(op, "apply" | "visit");
+fn is_rewriting(op: &str) -> bool {
+    !matches!(op, "apply" | "visit" | "exists")
+}
+
+fn run_real<T: Fam>(t: T, op: &str, ws: bool, decs: &[Dec]) -> Outcome {
+    let rewriting = is_rewriting(op);
     let cb = RefCell::new(Cb { decs: decs.to_vec(), rewriting, k: 0, log: vec![], calls: vec![] });
-    let t = T::build(m);
-    let mut vres = None;
     let mut tres = None;
-    let ok;
-    if !rewriting {
-        let r = if op == "apply" { t.apply(|n| vcall(&cb, 'd', n)) } else { t.visit(&mut VisT(&cb, std::marker::PhantomData)) };
-        ok = r.is_ok();
-        vres = r.ok();
-    } else {
-        let r = match op {
-            "tdown" => t.transform_down(|n| tcall(&cb, 'd', n)),
-            "tup" => t.transform_up(|n| tcall(&cb, 'u', n)),
-            "tdownup" => t.transform_down_up(|n| tcall(&cb, 'd', n), |n| tcall(&cb, 'u', n)),
-            "rewrite" => t.rewrite(&mut RewT(&cb, std::marker::PhantomData)),
-            _ => unreachable!(),
+    let tail: String;
+    if op == "exists" {
+        // `exists(f)`: Stop = "found here", anything else = "not here"
+        let r = t.exists(|n| match cb.borrow_mut().next('d', n.label()) {
+            Dec::V(Tnr::Stop) => Ok(true),
+            Dec::V(_) => Ok(false),
+            _ => Err(err()),
+        });
+        tail = match r {
+            Ok(b) => if b { "t".into() } else { "f".into() },
+            Err(_) => "err".into(),
         };
-        ok = r.is_ok();
-        tres = r.ok().map(|t| (t.data.shape(), t.transformed, t.tnr));
+    } else if !rewriting {
+        let r = if ws {
+            t.ws_inspect(op, &cb)
+        } else if op == "apply" {
+            t.apply(|n| vcall(&cb, 'd', n))
+        } else {
+            t.visit(&mut VisT(&cb, std::marker::PhantomData))
+        };
+        tail = match r {
+            Ok(v) => tnr_name(v).to_string(),
+            Err(_) => "err".into(),
+        };
+    } else {
+        let r = if ws {
+            t.ws_rewrite(op, &cb)
+        } else {
+            match op {
+                "tdown" => t.transform_down(|n| tcall(&cb, 'd', n)),
+                "tup" => t.transform_up(|n| tcall(&cb, 'u', n)),
+                "tdownup" => t.transform_down_up(|n| tcall(&cb, 'd', n), |n| tcall(&cb, 'u', n)),
+                "rewrite" => t.rewrite(&mut RewT(&cb, std::marker::PhantomData)),
+                _ => unreachable!(),
+            }
+        };
+        match r {
+            Ok(t) => {
+                let s = t.data.shape(ws);
+                tail = format!("{s} {} {}", if t.transformed { "t" } else { "f" }, tnr_name(t.tnr));
+                tres = Some((s, t.transformed, t.tnr));
+            }
+            Err(_) => tail = "err".into(),
+        }
     }
     let cb = cb.into_inner();
-    let logs = format!("({})", cb.log.join(" "));
-    let answer = if !ok {
-        format!("{logs} err")
-    } else if let Some(v) = vres {
-        format!("{logs} {}", tnr_name(v))
-    } else {
-        let (s, f, t) = tres.clone().unwrap();
-        format!("{logs} {s} {} {}", if f { "t" } else { "f" }, tnr_name(t))
-    };
-    Outcome { log: cb.log, calls: cb.calls, vres, tres, answer }
+    let answer = format!("({}) {tail}", cb.log.join(" "));
+    Outcome { log: cb.log, calls: cb.calls, tres, answer }
 }
 
 // ------------------------------------------------------------------ reference of the documented contract
@@ -398,8 +1237,8 @@ fn run_real<T: Fam>(op: &str, m: &M, decs: &[Dec]) -> Outcome {
 /// pre-order `f_down`, post-order `f_up`; `Jump` from `f_down` skips the node's children; `Jump`
 /// from `f_up` skips the `f_up` of the ancestors up to the first one that still has unvisited
 /// children; `Stop` ends everything; an error ends everything.  `quirk = true` additionally
-/// applies what the code does for nodes whose last child container is empty (used only to
-/// classify a contract failure).
+/// applies what the code does for nodes whose last child container is empty (used to classify a
+/// contract failure, and to know beforehand which node each invocation hits).
 struct Reference<'a> {
     decs: &'a [Dec],
     rewriting: bool,
@@ -417,7 +1256,7 @@ impl<'a> Reference<'a> {
         d
     }
     /// returns None on error, else (shape, transformed, tnr)
-    fn walk(&mut self, n: &M) -> Option<(String, bool, Tnr)> {
+    fn walk(&mut self, n: &V) -> Option<(String, bool, Tnr)> {
         let mut cur = n.label;
         let mut flag = false;
         let mut d = Tnr::Continue;
@@ -428,25 +1267,25 @@ impl<'a> Reference<'a> {
                 Dec::T(t, f, r) => {
                     d = t;
                     flag |= f;
-                    if r {
+                    if r && cur != 0 {
                         cur += 100 * self.k as u64;
                     }
                 }
             }
         }
-        let unchanged = |cur: u64, n: &M| {
+        let mut after = Tnr::Continue;
+        let mut kids_s: Vec<String> = n.kids.iter().map(|k| k.plain_shape()).collect();
+        let shape = |cur: u64, kids_s: &Vec<String>| {
             let mut s = format!("({cur}");
-            for k in &n.kids {
+            for k in kids_s {
                 s.push(' ');
-                s.push_str(&plain_shape(k));
+                s.push_str(k);
             }
             s.push(')');
             s
         };
-        let mut after = Tnr::Continue;
-        let mut kids_s: Vec<String> = n.kids.iter().map(plain_shape).collect();
         match d {
-            Tnr::Stop => return Some((unchanged(cur, n), flag, Tnr::Stop)),
+            Tnr::Stop => return Some((shape(cur, &kids_s), flag, Tnr::Stop)),
             Tnr::Jump => {}
             Tnr::Continue => {
                 for (i, c) in n.kids.iter().enumerate() {
@@ -463,15 +1302,6 @@ impl<'a> Reference<'a> {
                 }
             }
         }
-        let shape = |cur: u64, kids_s: &Vec<String>| {
-            let mut s = format!("({cur}");
-            for k in kids_s {
-                s.push(' ');
-                s.push_str(k);
-            }
-            s.push(')');
-            s
-        };
         if after == Tnr::Stop || !self.up || after == Tnr::Jump {
             return Some((shape(cur, &kids_s), flag, after));
         }
@@ -480,7 +1310,7 @@ impl<'a> Reference<'a> {
             Dec::V(t) => Some((shape(cur, &kids_s), flag, t)),
             Dec::T(t, f, r) => {
                 flag |= f;
-                if r {
+                if r && cur != 0 {
                     cur += 100 * self.k as u64;
                 }
                 Some((shape(cur, &kids_s), flag, t))
@@ -488,50 +1318,88 @@ impl<'a> Reference<'a> {
         }
     }
 }
-fn plain_shape(m: &M) -> String {
-    let mut s = format!("({}", m.label);
-    for k in &m.kids {
-        s.push(' ');
-        s.push_str(&plain_shape(k));
-    }
-    s.push(')');
-    s
-}
-fn reference(op: &str, m: &M, decs: &[Dec], quirk: bool) -> String {
-    let rewriting = !matches!(op, "apply" | "visit");
+/// (answer line, log)
+fn reference(op: &str, v: &V, decs: &[Dec], quirk: bool) -> (String, Vec<String>) {
+    let rewriting = is_rewriting(op);
     let (down, up) = match op {
-        "apply" | "tdown" => (true, false),
+        "apply" | "tdown" | "exists" => (true, false),
         "tup" => (false, true),
         _ => (true, true),
     };
+    // exists: only Stop ("found") matters; Jump means "not here", like Continue
+    let mapped: Vec<Dec>;
+    let decs = if op == "exists" {
+        mapped = decs.iter().map(|d| if let Dec::V(Tnr::Jump) = d { Dec::V(Tnr::Continue) } else { *d }).collect();
+        &mapped[..]
+    } else {
+        decs
+    };
     let mut r = Reference { decs, rewriting, k: 0, log: vec![], quirk, down, up };
-    let res = r.walk(m);
+    let res = r.walk(v);
     let logs = format!("({})", r.log.join(" "));
-    match res {
+    let line = match res {
         None => format!("{logs} err"),
         Some((s, f, t)) => {
-            if rewriting {
+            if op == "exists" {
+                format!("{logs} {}", if t == Tnr::Stop { "t" } else { "f" })
+            } else if rewriting {
                 format!("{logs} {s} {} {}", if f { "t" } else { "f" }, tnr_name(t))
             } else {
                 format!("{logs} {}", tnr_name(t))
+            }
+        }
+    };
+    (line, r.log)
+}
+/// no invocation on an unlabelled node (label 0) may ask for a relabel: clear the flag there.  Which node an
+/// invocation hits does not depend on relabel flags, so one pass over the reference log suffices.
+fn fixup(op: &str, v: &V, decs: &mut Vec<Dec>) {
+    if !is_rewriting(op) {
+        return;
+    }
+    let (_, log) = reference(op, v, decs, true);
+    for (k, entry) in log.iter().enumerate() {
+        if &entry[1..] == "0" {
+            if let Some(Dec::T(t, f, true)) = decs.get(k).copied() {
+                decs[k] = Dec::T(t, f, false);
             }
         }
     }
 }
 
 // ------------------------------------------------------------------ one case
-fn one<T: Fam>(run: &mut Run, op: &str, m: &M, decs: &[Dec]) {
-    let mm = m.clone();
-    let dd = decs.to_vec();
+fn one<T: Fam>(run: &mut Run, op: &str, ws: bool, raw: &M, decs: &[Dec]) {
+    let mut m = raw.clone();
+    let mut next = 1;
+    annotate::<T>(&mut m, &mut next);
+    let v = m.view(ws);
+    let mut decs = decs.to_vec();
+    fixup(op, &v, &mut decs);
+    if T::TRUTHFUL_ONLY {
+        for d in decs.iter_mut() {
+            if let Dec::T(t, false, true) = *d {
+                *d = Dec::T(t, false, false);
+            }
+        }
+    }
+    // constructors of real nodes may validate (and even evaluate constant children): refusal or panic = skip
+    let Some(t) = hutil::catch(std::panic::AssertUnwindSafe(|| T::build(&m))).ok().flatten() else {
+        run.count(&format!("{}: constructor refused the shape (skipped)", T::NAME));
+        return;
+    };
+    let opname = if ws { format!("{op}_with_subqueries") } else { op.to_string() };
+    let dstr = format!("({})", decs.iter().map(|d| d.atom()).collect::<Vec<_>>().join(" "));
+    let input = format!("fam={} op={opname} tree={} decs={dstr}", T::NAME, v.sexp());
+    let kinds = kinds_of(&t, ws);
+    let dd = decs.clone();
     let opn = op.to_string();
-    let out = match hutil::catch(std::panic::AssertUnwindSafe(move || run_real::<T>(&opn, &mm, &dd))) {
+    let out = match hutil::catch(std::panic::AssertUnwindSafe(move || run_real::<T>(t, &opn, ws, &dd))) {
         Ok(o) => o,
         Err(p) => {
-            run.oracle(false, &format!("panic fam={} op={op} tree={} decs={:?}", T::NAME, m.sexp(), decs), &p);
+            run.oracle(false, &format!("panic {input}"), &format!("{p} (node kinds: {kinds})"));
             return;
         }
     };
-    let dstr = format!("({})", decs.iter().map(|d| d.atom()).collect::<Vec<_>>().join(" "));
     let used = out.calls.len();
     let kinds_used = {
         let mut s = std::collections::BTreeSet::new();
@@ -540,31 +1408,33 @@ fn one<T: Fam>(run: &mut Run, op: &str, m: &M, decs: &[Dec]) {
         }
         s.len()
     };
-    let model_op = if op == "rewrite" { "rewrite" } else { op };
-    run.case(model_op, &format!("({} {dstr})", m.sexp()), &out.answer, used >= 3 && kinds_used >= 2);
-    run.count(&format!("{}:{op}", T::NAME));
-    run.count(&format!("nodes={}", m.size().min(9)));
-    if m.has_reset() {
+    run.case(op, &format!("({} {dstr})", v.sexp()), &out.answer, used >= 3 && kinds_used >= 2);
+    run.count(&format!("{}:{opname}", T::NAME));
+    run.count(&format!("nodes={}", v.size().min(9)));
+    if v.has_reset() {
         run.count("tree has an empty trailing container");
     }
     for c in &out.calls {
-        run.count(&format!("decision {}", match c.2 { Dec::E => "Err".to_string(), d => tnr_name(d.tnr().unwrap()).to_string() }));
+        run.count(&match c.2 {
+            Dec::E => "decision Err".to_string(),
+            Dec::T(t, f, _) if t != Tnr::Continue => format!("decision {} with transformed={f}", tnr_name(t)),
+            d => format!("decision {}", tnr_name(d.tnr().unwrap())),
+        });
     }
-    let input = format!("fam={} op={op} tree={} decs={dstr}", T::NAME, m.sexp());
     // (1) the documented contract
-    let want = reference(op, m, decs, false);
+    let (want, _) = reference(op, &v, &decs, false);
     if out.answer != want {
-        let quirk = reference(op, m, decs, true);
+        let (quirk, _) = reference(op, &v, &decs, true);
         let sig = if out.answer == quirk {
-            format!("jump-from-last-child-dropped-by-empty-trailing-container fam={} op={op} tree={} decs={dstr}", T::NAME, m.sexp())
+            format!("jump-from-last-child-dropped-by-empty-trailing-container {input}")
         } else {
             format!("contract-mismatch {input}")
         };
-        run.oracle(false, &sig, &format!("real `{}` vs documented contract `{want}` ({input}; node kinds: {})", out.answer, kinds_of::<T>(m)));
+        run.oracle(false, &sig, &format!("real `{}` vs documented contract `{want}` ({input}; node kinds: {kinds})", out.answer));
     } else {
         run.oracle(true, "", "");
     }
-    // (2) nothing is called after a Stop / Err
+    // (2) nothing is called after a Stop / Err   (exists: Stop = found)
     let first_end = out.calls.iter().position(|c| matches!(c.2.tnr(), None | Some(Tnr::Stop)));
     run.oracle(first_end.map_or(true, |i| i + 1 == out.calls.len()), &format!("callback-after-stop {input}"), &format!("log {:?}", out.log));
     if let Some((shape, flag, _)) = &out.tres {
@@ -573,38 +1443,45 @@ fn one<T: Fam>(run: &mut Run, op: &str, m: &M, decs: &[Dec]) {
         run.oracle(*flag == reported, &format!("transformed-flag {input}"), &format!("result.transformed={flag}, callbacks reported {reported}"));
         // (4) result tree = input with exactly the replacements made
         let mut cur: HashMap<u64, u64> = HashMap::new(); // current label -> original label
-        collect_labels(m, &mut cur);
+        collect_labels(&v, &mut cur);
         for (i, c) in out.calls.iter().enumerate() {
             if let Dec::T(_, _, true) = c.2 {
-                if let Some(orig) = cur.remove(&c.1) {
-                    cur.insert(c.1 + 100 * (i as u64 + 1), orig);
+                if c.1 != 0 {
+                    if let Some(orig) = cur.remove(&c.1) {
+                        cur.insert(c.1 + 100 * (i as u64 + 1), orig);
+                    }
                 }
             }
         }
-        let inv: HashMap<u64, u64> = cur.iter().map(|(c, o)| (*o, *c)).collect();
-        let want_shape = relabelled(m, &inv);
+        let mut inv: HashMap<u64, u64> = cur.iter().map(|(c, o)| (*o, *c)).collect();
+        inv.insert(0, 0);
+        let want_shape = relabelled(&v, &inv);
         run.oracle(*shape == want_shape, &format!("replacement-tree {input}"), &format!("result {shape}, expected {want_shape}"));
     }
-    let _ = out.vres;
 }
-fn kinds_of<T: Fam>(m: &M) -> String {
-    fn go<T: Fam>(t: &T, out: &mut Vec<String>) {
+fn kinds_of<T: Fam>(t: &T, ws: bool) -> String {
+    fn go<T: Fam>(t: &T, ws: bool, out: &mut Vec<String>) {
         out.push(format!("{}:{}", t.label(), t.kind()));
+        if ws {
+            for k in t.subq() {
+                go(&k, ws, out);
+            }
+        }
         for k in t.kids() {
-            go(k, out);
+            go(&k, ws, out);
         }
     }
     let mut v = vec![];
-    go(&T::build(m), &mut v);
+    go(t, ws, &mut v);
     v.join(",")
 }
-fn collect_labels(m: &M, out: &mut HashMap<u64, u64>) {
+fn collect_labels(m: &V, out: &mut HashMap<u64, u64>) {
     out.insert(m.label, m.label);
     for k in &m.kids {
         collect_labels(k, out);
     }
 }
-fn relabelled(m: &M, inv: &HashMap<u64, u64>) -> String {
+fn relabelled(m: &V, inv: &HashMap<u64, u64>) -> String {
     let mut s = format!("({}", inv[&m.label]);
     for k in &m.kids {
         s.push(' ');
@@ -614,7 +1491,55 @@ fn relabelled(m: &M, inv: &HashMap<u64, u64>) -> String {
     s
 }
 
+/// Model-free oracle: for every node of a built tree, `apply_children` and `map_children` enumerate the same
+/// children in the same order, and these are the children the node was built from.
+fn children_agree<T: Fam>(run: &mut Run, raw: &M) {
+    let mut m = raw.clone();
+    let mut next = 1;
+    annotate::<T>(&mut m, &mut next);
+    let Some(t) = hutil::catch(std::panic::AssertUnwindSafe(|| T::build(&m))).ok().flatten() else { return };
+    fn go<T: Fam>(run: &mut Run, t: &T) {
+        let mut a: Vec<String> = vec![];
+        let ra = t.apply_children(|c| {
+            a.push(c.shape(false));
+            Ok(Tnr::Continue)
+        });
+        let mut b: Vec<String> = vec![];
+        let rb = t.clone().map_children(|c| {
+            b.push(c.shape(false));
+            Ok(Transformed::no(c))
+        });
+        let built: Vec<String> = t.kids().iter().map(|k| k.shape(false)).collect();
+        let kind = t.kind();
+        run.oracle(
+            ra.is_ok() && rb.is_ok() && a == b,
+            &format!("children-enumeration-differs fam={} kind={kind} node={}", T::NAME, t.shape(false)),
+            &format!("apply_children sees {a:?}, map_children sees {b:?}"),
+        );
+        run.oracle(
+            a == built,
+            &format!("children-not-as-built fam={} kind={kind} node={}", T::NAME, t.shape(false)),
+            &format!("apply_children sees {a:?}, built from {built:?}"),
+        );
+        // the rebuilt node must be the node (identity map)
+        if let Ok(r) = rb {
+            run.oracle(r.data.shape(false) == t.shape(false) && !r.transformed, &format!("identity-map-changes-node fam={} kind={kind} node={}", T::NAME, t.shape(false)), &format!("got {} transformed={}", r.data.shape(false), r.transformed));
+        }
+        run.count(&format!("children oracle: {} {kind}", T::NAME));
+        for k in t.kids() {
+            go(run, &k);
+        }
+        for k in t.subq() {
+            go(run, &k);
+        }
+    }
+    go(run, &t);
+}
+
 // ------------------------------------------------------------------ generators
+fn raw(kids: Vec<M>) -> M {
+    M { label: 0, kids, reset: false, kind: 0, subq: vec![] }
+}
 /// all ordered forests with n nodes
 fn forests(n: usize) -> Vec<Vec<M>> {
     if n == 0 {
@@ -633,45 +1558,48 @@ fn forests(n: usize) -> Vec<Vec<M>> {
     out
 }
 fn trees(n: usize) -> Vec<M> {
-    forests(n - 1).into_iter().map(|kids| M { label: 0, kids, reset: false }).collect()
+    forests(n - 1).into_iter().map(raw).collect()
 }
-fn number(m: &mut M, next: &mut u64) {
-    m.label = *next;
-    *next += 1;
-    for k in &mut m.kids {
-        number(k, next);
-    }
-}
-/// every assignment of the reset flag to inner nodes
+/// every assignment of the reset hint to inner nodes (position-addressed)
 fn reset_variants(m: &M) -> Vec<M> {
-    fn inner(m: &M, out: &mut Vec<u64>) {
+    fn inner(m: &M, path: &mut Vec<usize>, out: &mut Vec<Vec<usize>>) {
         if !m.kids.is_empty() {
-            out.push(m.label);
+            out.push(path.clone());
         }
-        for k in &m.kids {
-            inner(k, out);
-        }
-    }
-    fn set(m: &mut M, on: &[u64]) {
-        m.reset = on.contains(&m.label);
-        for k in &mut m.kids {
-            set(k, on);
+        for (i, k) in m.kids.iter().enumerate() {
+            path.push(i);
+            inner(k, path, out);
+            path.pop();
         }
     }
-    let mut ids = vec![];
-    inner(m, &mut ids);
+    fn set(m: &mut M, path: &[usize]) {
+        match path.split_first() {
+            None => m.reset = true,
+            Some((i, rest)) => set(&mut m.kids[*i], rest),
+        }
+    }
+    let mut paths = vec![];
+    inner(m, &mut vec![], &mut paths);
     let mut out = vec![];
-    for mask in 0..(1u32 << ids.len()) {
-        let on: Vec<u64> = ids.iter().enumerate().filter(|(i, _)| mask >> i & 1 == 1).map(|(_, l)| *l).collect();
+    for mask in 0..(1u32 << paths.len()) {
         let mut t = m.clone();
-        set(&mut t, &on);
+        for (i, p) in paths.iter().enumerate() {
+            if mask >> i & 1 == 1 {
+                set(&mut t, p);
+            }
+        }
         out.push(t);
     }
     out
 }
-fn random_tree(rng: &mut Rng, n: usize) -> M {
+fn randomize_kinds(rng: &mut Rng, m: &mut M) {
+    m.kind = rng.below(1 << 20);
+    for k in &mut m.kids {
+        randomize_kinds(rng, k);
+    }
+}
+fn random_tree(rng: &mut Rng, n: usize, subq: bool) -> M {
     fn go(rng: &mut Rng, n: usize) -> M {
-        // n >= 1 nodes
         let mut kids = vec![];
         let mut left = n - 1;
         while left > 0 {
@@ -680,11 +1608,27 @@ fn random_tree(rng: &mut Rng, n: usize) -> M {
             kids.push(go(rng, take));
             left -= take;
         }
-        M { label: 0, kids, reset: rng.chance(1, 3) }
+        M { label: 0, kids, reset: rng.chance(1, 3), kind: rng.below(1 << 20), subq: vec![] }
+    }
+    fn add_subq(rng: &mut Rng, m: &mut M, depth: usize) {
+        if m.kids.len() <= 2 && rng.chance(1, 4) {
+            for _ in 0..1 + rng.below(2) {
+                let sz = 1 + rng.below(3) as usize;
+                let mut inner = go(rng, sz);
+                if depth == 0 {
+                    add_subq(rng, &mut inner, 1);
+                }
+                m.subq.push(M { label: 0, kids: vec![inner], reset: false, kind: 0, subq: vec![] });
+            }
+        }
+        for k in &mut m.kids {
+            add_subq(rng, k, depth);
+        }
     }
     let mut t = go(rng, n);
-    let mut next = 1;
-    number(&mut t, &mut next);
+    if subq {
+        add_subq(rng, &mut t, 0);
+    }
     t
 }
 fn vopts(with_err: bool) -> Vec<Dec> {
@@ -695,6 +1639,7 @@ fn vopts(with_err: bool) -> Vec<Dec> {
     v
 }
 fn topts(full: bool) -> Vec<Dec> {
+    // Stop / Jump / Continue each with transformed = true AND transformed = false
     let mut v = vec![];
     for t in [Tnr::Continue, Tnr::Jump, Tnr::Stop] {
         for f in [false, true] {
@@ -702,7 +1647,6 @@ fn topts(full: bool) -> Vec<Dec> {
                 v.push(Dec::T(t, f, false));
                 v.push(Dec::T(t, f, true));
             } else {
-                // relabel exactly when reporting "transformed" … and one lying combination each
                 v.push(Dec::T(t, f, f));
             }
         }
@@ -742,8 +1686,9 @@ fn random_vector(rng: &mut Rng, rewriting: bool, len: usize) -> Vec<Dec> {
             if rng.chance(1, 60) {
                 Dec::E
             } else if rewriting {
-                let f = rng.chance(1, 3);
-                let rl = if rng.chance(1, 8) { !f } else { f };
+                // the flag is independent of the decision: Stop/Jump come with transformed = false as often as true
+                let f = rng.chance(1, 2) && (t != Tnr::Continue || rng.chance(1, 2));
+                let rl = if rng.chance(1, 6) { !f } else { f };
                 Dec::T(t, f, rl)
             } else {
                 Dec::V(t)
@@ -751,7 +1696,6 @@ fn random_vector(rng: &mut Rng, rewriting: bool, len: usize) -> Vec<Dec> {
         })
         .collect()
 }
-
 // ------------------------------------------------------------------ tables (T2 validation)
 fn tables(run: &mut Run) {
     let all = [Tnr::Continue, Tnr::Jump, Tnr::Stop];
@@ -852,67 +1796,137 @@ fn case_without_else(run: &mut Run) {
     }
 }
 
+const OPS: [&str; 7] = ["apply", "visit", "tdown", "tup", "tdownup", "rewrite", "exists"];
+
+/// all operations of one family on one raw tree with one decision vector per operation kind
+fn all_ops<T: Fam>(run: &mut Run, rng: &mut Rng, t: &M, n: usize, ws_too: bool) {
+    for op in OPS {
+        let decs = random_vector(rng, is_rewriting(op), 2 * n + 2);
+        one::<T>(run, op, false, t, &decs);
+        if ws_too && op != "exists" {
+            let decs = random_vector(rng, is_rewriting(op), 2 * n + 2);
+            one::<T>(run, op, true, t, &decs);
+        }
+    }
+}
+
 pub fn run(run: &mut Run, args: &Args) {
     let mut rng = Rng::new(args.seed);
-    hutil::quiet_panics();
+    if std::env::var("C42_DEBUG").is_err() {
+        hutil::quiet_panics();
+    }
     tables(run);
 
     // ---- exhaustive part: all shapes × all reset assignments × all decision vectors
     let nmax_apply = run.budget(4, 5) as usize;
     for n in 1..=nmax_apply {
-        for mut t in trees(n) {
-            let mut next = 1;
-            number(&mut t, &mut next);
+        for t in trees(n) {
             let variants = reset_variants(&t);
             // apply: reset is irrelevant by construction of the code — one random variant, all vectors
             let v = rng.pick(&variants).clone();
             for decs in all_vectors(&vopts(true), n) {
-                one::<Rose>(run, "apply", &v, &decs);
-                if n <= 3 {
-                    one::<Expr>(run, "apply", &v, &decs);
-                }
+                one::<Rose>(run, "apply", false, &v, &decs);
             }
             if n <= 3 {
                 for v in &variants {
                     for decs in all_vectors(&vopts(false), 2 * n) {
-                        one::<Rose>(run, "visit", v, &decs);
+                        one::<Rose>(run, "visit", false, v, &decs);
                     }
                     for decs in all_vectors(&topts(false), n) {
-                        one::<Rose>(run, "tdown", v, &decs);
-                        one::<Rose>(run, "tup", v, &decs);
-                        one::<Expr>(run, "tup", v, &decs);
+                        one::<Rose>(run, "tdown", false, v, &decs);
+                        one::<Rose>(run, "tup", false, v, &decs);
+                    }
+                }
+                // the other families: a few kind assignments per shape, every decision vector
+                for _ in 0..run.budget(2, 6) {
+                    let mut k = t.clone();
+                    randomize_kinds(&mut rng, &mut k);
+                    for decs in all_vectors(&vopts(false), n) {
+                        one::<Expr>(run, "apply", false, &k, &decs);
+                        one::<LogicalPlan>(run, "apply", false, &k, &decs);
+                        one::<PE>(run, "exists", false, &k, &decs);
+                        one::<EP>(run, "apply", false, &k, &decs);
+                    }
+                    for decs in all_vectors(&topts(false), n) {
+                        one::<Expr>(run, "tup", false, &k, &decs);
+                        one::<Expr>(run, "tdown", false, &k, &decs);
+                        one::<LogicalPlan>(run, "tup", false, &k, &decs);
+                        one::<LogicalPlan>(run, "tdown", false, &k, &decs);
+                        one::<PE>(run, "tup", false, &k, &decs);
+                        one::<PE>(run, "tdown", false, &k, &decs);
+                        one::<EP>(run, "tup", false, &k, &decs);
+                        one::<EP>(run, "tdown", false, &k, &decs);
+                    }
+                    if n <= 2 {
+                        for decs in all_vectors(&vopts(false), 2 * n) {
+                            one::<Expr>(run, "visit", false, &k, &decs);
+                            one::<LogicalPlan>(run, "visit", false, &k, &decs);
+                            one::<PE>(run, "visit", false, &k, &decs);
+                            one::<EP>(run, "visit", false, &k, &decs);
+                        }
+                        for decs in all_vectors(&topts(false), 2 * n) {
+                            one::<Expr>(run, "rewrite", false, &k, &decs);
+                            one::<LogicalPlan>(run, "tdownup", false, &k, &decs);
+                            one::<PE>(run, "tdownup", false, &k, &decs);
+                            one::<EP>(run, "rewrite", false, &k, &decs);
+                        }
                     }
                 }
             }
             if n <= 2 {
                 for v in &variants {
                     for decs in all_vectors(&topts(false), 2 * n) {
-                        one::<Rose>(run, "tdownup", v, &decs);
-                        one::<Expr>(run, "rewrite", v, &decs);
-                    }
-                    for decs in all_vectors(&topts(true), n) {
-                        one::<Expr>(run, "tdown", v, &decs);
+                        one::<Rose>(run, "tdownup", false, v, &decs);
                     }
                 }
             }
         }
     }
-    // ---- random part: larger trees, biased vectors
-    let per = run.budget(700, 40_000);
-    for op in ["apply", "visit", "tdown", "tup", "tdownup", "rewrite"] {
-        for _ in 0..per {
-            let n = 3 + rng.below(10) as usize;
-            let t = random_tree(&mut rng, n);
-            let rewriting = !matches!(op, "apply" | "visit");
-            let len = 2 * n;
-            let decs = random_vector(&mut rng, rewriting, len);
-            one::<Expr>(run, op, &t, &decs);
-            if rng.chance(1, 2) {
-                one::<Rose>(run, op, &t, &decs);
+    // a plan with one sub-query, every decision vector, all six `*_with_subqueries` operations
+    {
+        let sub = M { label: 0, kids: vec![raw(vec![])], reset: false, kind: 0, subq: vec![] };
+        for host_kids in 0..=2usize {
+            let mut host = raw((0..host_kids).map(|_| raw(vec![])).collect());
+            host.subq = vec![sub.clone()];
+            let nodes = 3 + host_kids;
+            for decs in all_vectors(&vopts(false), nodes) {
+                one::<LogicalPlan>(run, "apply", true, &host, &decs);
+            }
+            if host_kids <= 1 {
+                for decs in all_vectors(&topts(false), nodes) {
+                    one::<LogicalPlan>(run, "tdown", true, &host, &decs);
+                    one::<LogicalPlan>(run, "tup", true, &host, &decs);
+                }
+            }
+            for decs in all_vectors(&vopts(false), 2 * nodes).into_iter().step_by(if host_kids == 0 { 1 } else { 7 }) {
+                one::<LogicalPlan>(run, "visit", true, &host, &decs);
             }
         }
     }
+    // ---- random part: larger trees, biased vectors, every family × every operation
+    let per = run.budget(260, 16_000);
+    for _ in 0..per {
+        let n = 2 + rng.below(10) as usize;
+        let t = random_tree(&mut rng, n, true);
+        all_ops::<Expr>(run, &mut rng, &t, n, false);
+        all_ops::<LogicalPlan>(run, &mut rng, &t, t.size(), true);
+        all_ops::<PE>(run, &mut rng, &t, n, false);
+        all_ops::<EP>(run, &mut rng, &t, n, false);
+        if rng.chance(1, 2) {
+            all_ops::<Rose>(run, &mut rng, &t, n, false);
+        }
+    }
+    // ---- children enumeration: apply_children vs map_children vs construction, on many node kinds
+    let per = run.budget(300, 6_000);
+    for _ in 0..per {
+        let n = 1 + rng.below(9) as usize;
+        let t = random_tree(&mut rng, n, true);
+        children_agree::<Expr>(run, &t);
+        children_agree::<LogicalPlan>(run, &t);
+        children_agree::<PE>(run, &t);
+        children_agree::<EP>(run, &t);
+    }
     case_without_else(run);
     let _ = std::panic::take_hook();
-    run.note("families: expr = datafusion_expr::Expr (Literal/Alias/Like/ScalarFunction/AggregateFunction); rose = harness tree with a (Vec,Vec) tuple container driven by the real TreeNode default methods and container impls");
+    run.note("families: rose (harness tree, (Vec,Vec) container), expr (datafusion_expr::Expr), plan (LogicalPlan incl. *_with_subqueries), pexpr (Arc<dyn PhysicalExpr>), exec (Arc<dyn ExecutionPlan>); same model Sm/TreeWalk for all");
 }
